@@ -100,6 +100,21 @@ def solve_cases():
         left = sorted(f for f in os.listdir(td) if f.endswith(".tmp"))
         if left:
             bad.append(dict(case, problem=f"temporary files remain: {left}"))
+        # the existing file is the frame-less output of a run that stopped while thermalising: it is the user's file all the same
+        def eps_stop(r, *, t):
+            raise RuntimeError("stopped while thermalising")
+        p5 = os.path.join(td, "sweep.h5")
+        try:
+            tdgl.solve(dev, tdgl.SolverOptions(solve_time=0.2, skip_time=0.2, output_file=p5, save_every=10, adaptive=False, dt_init=1e-2), applied_vector_potential=0.1, disorder_epsilon=eps_stop)
+        except RuntimeError:
+            pass
+        if os.path.exists(p5):
+            d5 = hashlib.sha256(open(p5, "rb").read()).hexdigest()
+            third = tdgl.solve(dev, tdgl.SolverOptions(solve_time=0.1, output_file=p5, save_every=10, adaptive=False, dt_init=1e-2), applied_vector_potential=0.1)
+            n += 1
+            if not os.path.exists(p5) or hashlib.sha256(open(p5, "rb").read()).hexdigest() != d5 or os.path.abspath(third.path) == os.path.abspath(p5):
+                bad.append(dict(existing_file="sweep.h5 (output of a run stopped by an error while thermalising: no frame yet)", new_run="10 steps",
+                                problem="the pre-existing file at the output path was modified (replaced by the new run) instead of a fresh name being chosen"))
         # Ctrl-C in the recorded stage of a real solve: a usable partial solution comes back and can be reloaded
         hits = [0]
 
@@ -162,6 +177,12 @@ def solve_cases():
 
 def replay(unit, obl):
     import tdgl
+    name0 = (obl or {}).get("name", "")
+    if "enter" in name0 or "solve_paths" in name0:
+        b0, n0 = solve_cases()
+        b0 = [b for b in b0 if "pre-existing" in b.get("problem", "")]
+        if b0:
+            return dict(confirmed=True, failing_input=b0[0], n_failing=len(b0), evaluations=n0, tdgl_file=tdgl.__file__, note="real solves into a path where a file already exists")
     bad, n = search(0, 5)
     if bad:
         name = (obl or {}).get("name", "")
